@@ -631,6 +631,14 @@ class SymReal(numbers.Real):
     def __deepcopy__(self, memo):
         return self
 
+    # numpy-scalar-like surface: full indexing of a float64 array yields np.float64, which has these
+    def copy(self):
+        return self
+
+    shape = ()
+    ndim = 0
+    size = 1
+
 
 def is_sym(x):
     return isinstance(x, (SymReal, SymBool))
